@@ -870,16 +870,12 @@ theorem loop_none : ∀ (args : List Val) (h : Heap) (log : List Nat), WF h →
 def resItems (res : Heap × Option Nat × List Nat) : List Item :=
   match res.2.1 with | some r => items res.1 r | none => []
 
-/-- the effective accumulator (design Appendix B): `err`, or — when `err` is the nil interface — the first argument
-    that is not the nil interface, which `Append` adopts -/
-def accOf : Val → List Val → Val
-  | .nilIface, a :: as => accOf a as
-  | v, _ => v
+/-- the accumulator of `Append(err, errs...)` is `err`.  (Before fix f2f6175 a nil `err` made the first non-nil argument the
+    accumulator; the name is kept because lemma files of other properties mention it — it is the identity now.) -/
+def accOf (acc : Val) (_ : List Val) : Val := acc
 
-/-- the arguments that are appended to the effective accumulator -/
-def restOf : Val → List Val → List Val
-  | .nilIface, a :: as => restOf a as
-  | _, args => args
+/-- the appended arguments are `errs` — all of them (identity, see `accOf`) -/
+def restOf (_ : Val) (args : List Val) : List Val := args
 
 /-- no appended argument's chain ends in the accumulator's last cell (the one pre-existing cell `Append` writes) -/
 def NoAlias (h : Heap) (acc : Val) (args : List Val) : Prop :=
@@ -964,7 +960,7 @@ theorem some_to_done (h : Heap) (acc : Val) (args : List Val) (id : Nat) (hacc :
   obtain ⟨c, hm⟩ := hwf.chain_spec hid
   obtain ⟨g1, g2, g3, g4, ⟨L, e', g5, g6, g7, g9⟩, g8⟩ :=
     loop_some args h id _ _ [] hwf c (fun i hi => (hm i hi).2) hne (fun id' hid' => ⟨hids id' hid', hna id' hid'⟩)
-  have hacc' : accOf (.ref id) args = .ref id := by cases args <;> rfl
+  have hacc' : accOf (.ref id) args = .ref id := rfl
   refine ⟨g2, g3, fun r' hr' => by rw [g1] at hr'; cases hr'; omega, ?_, ?_, ?_, ?_, ?_⟩
   rotate_right
   · intro r' hr'
@@ -985,11 +981,9 @@ theorem some_to_done (h : Heap) (acc : Val) (args : List Val) (id : Nat) (hacc :
   · intro i hi hx
     exact g4 i hi (hx id hacc')
 
-theorem accOf_of_ne (acc : Val) (args : List Val) (h : acc ≠ .nilIface) : accOf acc args = acc := by
-  cases acc <;> first | exact absurd rfl h | (cases args <;> rfl)
+theorem accOf_of_ne (acc : Val) (args : List Val) (_ : acc ≠ .nilIface) : accOf acc args = acc := rfl
 
-theorem restOf_of_ne (acc : Val) (args : List Val) (h : acc ≠ .nilIface) : restOf acc args = args := by
-  cases acc <;> first | exact absurd rfl h | (cases args <;> rfl)
+theorem restOf_of_ne (acc : Val) (args : List Val) (_ : acc ≠ .nilIface) : restOf acc args = args := rfl
 
 theorem wrap_to_done (h : Heap) (v : Val) (args : List Val) (hwf : WF h) (hnil : isNil v = false)
     (hnr : ∀ id, v ≠ .ref id) (hids : ∀ id', Val.ref id' ∈ args → id' < h.size) :
@@ -1053,13 +1047,13 @@ theorem wrap_to_done (h : Heap) (v : Val) (args : List Val) (hwf : WF h) (hnil :
   · intro i hi _
     rw [g4 i (by omega) (by omega), B.frame i hi]
 
-theorem append_core (h : Heap) (acc : Val) (args : List Val) (hacc : acc ≠ .nilIface) (hwf : WF h)
+theorem append_core (h : Heap) (acc : Val) (args : List Val) (hwf : WF h)
     (hids : ∀ id, Val.ref id ∈ acc :: args → id < h.size)
     (hna : ∀ id, acc = .ref id → ∀ id', Val.ref id' ∈ args → tailOf h (fuelOf h) id ∉ chain h (fuelOf h) id') :
     AppendDone h acc args (append h acc args) := by
   have hids' : ∀ id', Val.ref id' ∈ args → id' < h.size := fun id' hid' => hids id' (by simp [hid'])
   cases acc with
-  | nilIface => exact absurd rfl hacc
+  | nilIface => exact none_to_done h _ args hwf (by simp [argItems, isNil]) (by simp [append]) hids'
   | typedNil => exact none_to_done h _ args hwf (by simp [argItems, isNil]) (by simp [append]) hids'
   | foreignNil => exact none_to_done h _ args hwf (by simp [argItems, isNil]) (by simp [append, isNil]) hids'
   | plain u m => exact wrap_to_done h _ args hwf (by simp [isNil]) (by simp) hids'
@@ -1073,46 +1067,12 @@ theorem append_core (h : Heap) (acc : Val) (args : List Val) (hacc : acc ≠ .ni
 theorem append_spec : ∀ (args : List Val) (acc : Val) (h : Heap), WF h →
     (∀ id, Val.ref id ∈ acc :: args → id < h.size) → NoAlias h acc args →
     AppendDone h acc args (append h acc args) := by
-  intro args
-  induction args with
-  | nil =>
-    intro acc h hwf hids hna
-    by_cases hacc : acc = .nilIface
-    · subst hacc
-      have hun : append h .nilIface [] = (h, none, []) := by simp [append]
-      rw [hun]
-      exact ⟨hwf, Nat.le_refl _, by simp, by simp [resItems, argItems, isNil], by simp [argItems, isNil], by simp,
-        fun _ _ _ => rfl, by simp⟩
-    · exact append_core h acc [] hacc hwf hids (fun id hid id' hid' => by simp at hid')
-  | cons a as ih =>
-    intro acc h hwf hids hna
-    by_cases hacc : acc = .nilIface
-    · subst hacc
-      have hun : append h .nilIface (a :: as) = append h a as := by simp [append]
-      rw [hun]
-      have D := ih a h hwf (fun id hid => hids id (List.mem_cons_of_mem _ hid)) hna
-      have h0 : argItems h .nilIface = [] := by simp [argItems, isNil]
-      exact ⟨D.wf, D.grow, D.rootLt, by rw [D.items, h0]; simp, by rw [D.nilIff, h0]; simp, D.written, D.frame,
-        D.tail⟩
-    · refine append_core h acc (a :: as) hacc hwf hids ?_
-      intro id hid id' hid'
-      refine hna id (by rw [accOf_of_ne acc _ hacc]; exact hid) id' (by rw [restOf_of_ne acc _ hacc]; exact hid')
+  intro args acc h hwf hids hna
+  exact append_core h acc args hwf hids (fun id hid id' hid' => hna id hid id' hid')
 
 /-! ### consequences -/
 
-theorem restOf_subset : ∀ (args : List Val) (acc : Val) (x : Val), x ∈ restOf acc args → x ∈ args := by
-  intro args
-  induction args with
-  | nil => intro acc x hx; cases acc <;> exact hx
-  | cons a as ih =>
-    intro acc x hx
-    cases acc with
-    | nilIface => exact List.mem_cons_of_mem _ (ih a x hx)
-    | typedNil => exact hx
-    | foreignNil => exact hx
-    | ref id => exact hx
-    | plain u m => exact hx
-    | fwrap u m inner => exact hx
+theorem restOf_subset (args : List Val) (acc : Val) (x : Val) (hx : x ∈ restOf acc args) : x ∈ args := hx
 
 /-- frame for any pre-existing aggregate whose chain does not end in the accumulator's last cell -/
 theorem append_frame_any (h : Heap) (acc : Val) (args : List Val) (hwf : WF h)
@@ -1190,19 +1150,7 @@ theorem wf_of_wfb (h : Heap) (hb : wfb h = true) : WF h := by
   simp at this
   exact ⟨this.1.1, this.1.2, this.2⟩
 
-theorem accOf_mem : ∀ (args : List Val) (acc : Val), accOf acc args ∈ acc :: args := by
-  intro args
-  induction args with
-  | nil => intro acc; cases acc <;> simp [accOf]
-  | cons a as ih =>
-    intro acc
-    cases acc with
-    | nilIface => exact List.mem_cons_of_mem _ (ih a)
-    | typedNil => simp [accOf]
-    | foreignNil => simp [accOf]
-    | ref id => simp [accOf]
-    | plain u m => simp [accOf]
-    | fwrap u m inner => simp [accOf]
+theorem accOf_mem (args : List Val) (acc : Val) : accOf acc args ∈ acc :: args := by simp [accOf]
 
 /-- a sequence of `Append`s on one accumulator: the result of each call is the accumulator of the next -/
 def appendSeq (h : Heap) (acc : Val) : List (List Val) → Heap × Val
@@ -1384,7 +1332,7 @@ theorem append_wrapper_eq (h : Heap) (v : Val) (args : List Val) (hnil : isNil v
   | plain u m => simp [append, isNil]
   | fwrap u m inner => simp [append, isNil]
 
-theorem append_wf_core (h : Heap) (acc : Val) (args : List Val) (hacc : acc ≠ .nilIface) (hwf : WF h)
+theorem append_wf_core (h : Heap) (acc : Val) (args : List Val) (hwf : WF h)
     (hids : ∀ id, Val.ref id ∈ acc :: args → id < h.size) :
     WF (append h acc args).1 ∧ h.size ≤ (append h acc args).1.size := by
   have hargs : ∀ id, Val.ref id ∈ args → id < h.size := fun id hid => hids id (List.mem_cons_of_mem _ hid)
@@ -1400,7 +1348,9 @@ theorem append_wf_core (h : Heap) (acc : Val) (args : List Val) (hacc : acc ≠ 
     rw [Array.size_push] at h2
     exact ⟨this.1, by omega⟩
   cases acc with
-  | nilIface => exact absurd rfl hacc
+  | nilIface =>
+    have hun : append h .nilIface args = appendLoop h none none [] args := by simp [append]
+    rw [hun]; exact loop_wf args h none none [] hwf hnone hargs
   | typedNil =>
     have hun : append h .typedNil args = appendLoop h none none [] args := by simp [append]
     rw [hun]; exact loop_wf args h none none [] hwf hnone hargs
@@ -1423,22 +1373,8 @@ theorem append_wf_core (h : Heap) (acc : Val) (args : List Val) (hacc : acc ≠ 
 theorem append_wf_any : ∀ (args : List Val) (acc : Val) (h : Heap), WF h →
     (∀ id, Val.ref id ∈ acc :: args → id < h.size) →
     WF (append h acc args).1 ∧ h.size ≤ (append h acc args).1.size := by
-  intro args
-  induction args with
-  | nil =>
-    intro acc h hwf hids
-    by_cases hacc : acc = .nilIface
-    · subst hacc
-      have hun : append h .nilIface [] = (h, none, []) := by simp [append]
-      rw [hun]; exact ⟨hwf, Nat.le_refl _⟩
-    · exact append_wf_core h acc [] hacc hwf hids
-  | cons a as ih =>
-    intro acc h hwf hids
-    by_cases hacc : acc = .nilIface
-    · subst hacc
-      have hun : append h .nilIface (a :: as) = append h a as := by simp [append]
-      rw [hun]; exact ih a h hwf (fun id hid => hids id (List.mem_cons_of_mem _ hid))
-    · exact append_wf_core h acc (a :: as) hacc hwf hids
+  intro args acc h hwf hids
+  exact append_wf_core h acc args hwf hids
 
 /-- `WrappedErrors()` elements carry no link -/
 theorem wrappedErrors_next_none' (h : Heap) (id : Nat) : ∀ n ∈ wrappedErrors h id, n.next = none := by
